@@ -44,7 +44,7 @@ ENGINES["treesim"] = {
 }
 
 ENGINES["aclsim"] = {
-    "serves": ["C04"],
+    "serves": ["C03", "C04"],
     "kind": "single-goroutine event loop: actors with stale real ACL views build records (real builder or, byzantine, raw protobuf) and submit them to a simulated consensus node (real fully validating AclList + acceptor signature); observers follow the chain through a faulty network",
     "real_vs_stub": {"real": ["acl/list (record builder, AclState, content validator, keep-identity partial decoder, in-memory and any-store storage)", "recordverifier (ValidateFull and acceptor verifier)",
                               "util/crypto (Ed25519, X25519 sealed boxes, AES)", "consensusproto / aclrecordproto codecs"],
@@ -86,6 +86,23 @@ PROPS = {
         "level_text": "Seeded exploration of message/ACL schedules with byzantine fault kinds; an independent reference predicate decides admissibility of every stored change on every replica after every delivery, and rejected deliveries must leave state untouched.",
         "level_note": "real tree/sync/ACL/storage code; byzantine inputs are built by the harness from the protobuf types; primitives (Ed25519, CID) trusted",
         "expected_probes": ["byz-admissible-built", "byz-inadmissible-built", "byz-admissible-accepted", "delivery-rejected"],
+    },
+    "C03": {
+        "engine": "aclsim",
+        "level": "exploration",
+        "budget": {"quick": 60, "thorough": 900},
+        "rule": "one run = an honest chain (owner bootstrap + 15-80 events; every record kind of the real builder incl. multi-content batches, actors on stale views, consensus = real fully validating list + network-key acceptor signature) followed by 3-6 observer replicas drawn from "
+                "{in-memory, any-store} x {full validation, acceptor verifier with keep-only-ours partial decode} x identity {owner, member, outsider, node}. Events per observer: next record alone; batch overlapping known records; catch-up with the raw records another observer serves (RecordsAfter, also from a partial-decode observer); "
+                "duplicate; gap (record not extending the head); corruption in flight, alone or inside a batch (byte flip keeping the id; signed payload / author signature / acceptor signature flips with recomputed id; rogue acceptor key; foreign id; everything validly re-signed but extending an older head); restart = rebuild from the database. "
+                "Oracles after every event: storage is a byte-exact prefix of the chain and RecordsAfter serves exactly the consensus bytes; head = last stored record; public state (owner, per-account permission+status, invites, pending requests, read-key ids, current key id, options) equals the consensus state at that head; "
+                "the set of readable key generations equals that of a reference list for the same identity (full decode, validating, in-memory, one at a time); a refused single record leaves digest and storage unchanged; a damaged record is never accepted; authentic records are never refused. Heal: everyone catches up and any-store observers are reopened once more. evaluations = observer checks.",
+        "assumptions": COMMON_ASSUMPTIONS + ["symbolic replay (records named by chain index): builder output is not byte-deterministic across executions of a seed",
+                                             "acceptor-field damage is delivered only to acceptor-verifying observers (a fully validating list legitimately ignores acceptor fields)",
+                                             "the consensus node is honest: no equivocation"],
+        "technique": "deterministic simulation: seeded delivery schedules (batching, duplication, gaps, corruption, catch-up, restart) of an honest ACL chain to observer replicas in all storage/verifier/identity modes; differential state oracle against the consensus state and a per-identity reference",
+        "level_text": "Seeded exploration of ingestion paths and network faults over observers in every decode/storage mode; differential oracle (state at head k must equal the reference at k) plus unchanged-on-reject and never-accept-damaged checks after every event.",
+        "level_note": "real ACL list/state/builder/storages/verifiers; chain production and delivery are simulated",
+        "expected_probes": ["batch-with-known-records", "catch-up-served-by-partial-decoder", "corrupt-in-batch"],
     },
     "C04": {
         "engine": "aclsim",
